@@ -40,6 +40,8 @@ def finding_key(fname, cfg):
         cls = "arithmetic-operands"
     elif lab.startswith("bool"):
         cls = "boolop"
+    elif lab.startswith("append_arg"):
+        cls = "append-argument-changes-length"
     elif lab.startswith("callarg_"):
         cls = "callarg-literal-or-nested-calls"
     elif lab.startswith("rve_"):
@@ -220,6 +222,13 @@ def run(ctx):
             # every differing test function is looked at (a known finding must not mask another test in the same bundle)
             for d in diffs:
                 handle_diff(ctx, it, cfg, d, mk, seen_keys, aug_value_diffs)
+    # contract creation whose constructor re-enters the creator (source-order oracle, every configuration, not sampled)
+    from vlib.c08_create import run_family
+    n_create, create_rej = run_family(ctx, list(configs(ctx.tier)) if ctx.tier == "quick" else cfgs)
+    n_cmp += n_create
+    ctx.corr["create_family"] = {"comparisons": n_create, "compile_rejections": create_rej,
+                                 "tests": "store/aug/loop-store/read around create_from_blueprint x scalar, transient, array element, "
+                                          "map element, struct field; constructor staticcalls back (and pokes)"}
     ctx.corr["distinct_findings"] = seen_keys
     ctx.corr["aug_assign_value_order_differences_by_config"] = aug_value_diffs
     ctx.corr["evaluations"] = n_cmp
